@@ -25,9 +25,19 @@ def rbytes(r, utf8=None):
     return r.choice(BAD_UTF8) + (rtext(r, 0, 2) if r.random() < 0.3 else b'')
 
 
+# names the library gives a meaning to at SOME level of the metainfo: as keys of unknown dictionaries, or at a level where
+# they mean nothing (a top-level 'private', a per-file 'name', {'private': 2} inside an unknown field), they are ordinary
+# unknown fields and must be preserved like any other - a conversion keyed by name that recurses (seed C05-6b) is not
+SCHEMA_NAMES = [b'info', b'creation date', b'announce', b'announce-list', b'comment', b'created by', b'url-list',
+                b'httpseeds', b'encoding', b'name', b'piece length', b'pieces', b'length', b'files', b'private', b'md5sum',
+                b'source', b'path', b'entropy', b'nodes', b'name.utf-8', b'path.utf-8']
+
+
 def rkey(r, bad=0.0):
     if r.random() < bad:
         return r.choice(BAD_UTF8)
+    if r.random() < 0.2:
+        return r.choice(SCHEMA_NAMES)
     return rtext(r, 0, 3)
 
 
